@@ -286,7 +286,7 @@ def harnesses():
     out.append(("is_signed-inference", signed_inference))
 
     # ---- explicit size / field size consistency ----
-    def field_req(kind):
+    def field_req(kind, by_reference=False):
         def fn(c, ir, holder):
             st = find_type(ir, "St")
             s = z3.Int("field_size_bits")
@@ -302,7 +302,18 @@ def harnesses():
             # the field's size in bytes: s must be a multiple of 8 for a struct field
             sb = z3.Int("field_size_bytes")
             c.assume(s == 8 * sb)
-            f.location.size = sym_const_expr(sb)
+            if by_reference:
+                # the size is written as a reference to a constant (`let k = 4` ... `0 [+k]`): not a literal, but its
+                # inferred bounds are exact; the rule is stated on the field's size, however it is written
+                v = SymIntStr(SymInt(sb))
+                f.location.size = ir_data.Expression(
+                    field_reference=ir_data.FieldReference(path=[ir_data.Reference(
+                        canonical_name=ir_data.CanonicalName(module_file="base.emb", object_path=["St", "k"]),
+                        source_name=[ir_data.Word(text="k")])]),
+                    type=ir_data.ExpressionType(integer=ir_data.IntegerType(
+                        modulus="infinity", modular_value=v, minimum_value=v, maximum_value=v)))
+            else:
+                f.location.size = sym_const_expr(sb)
             if kind == "UInt:n":
                 f.type.size_in_bits = sym_const_expr(n)
             k = z3.Int("type_fixed_bits")
@@ -328,6 +339,7 @@ def harnesses():
 
     for kind in ("UInt:n", "UInt", "Bi", "anon"):
         out.append(("field-size:" + kind, field_req(kind)))
+        out.append(("field-size-by-reference:" + kind, field_req(kind, True)))
 
     # ---- array elements in structs are whole bytes ----
     def array_elem(c, ir, holder):
@@ -407,6 +419,12 @@ def emb_for(cand):
             v["maximum_bits"], "true" if v["is_signed"] else "false", v["value"])
     if h == "maximum_bits-range":
         return hdr + "enum E:\n  [maximum_bits: %d]\n  A = 0\n" % v["maximum_bits"] if v["maximum_bits"] >= 0 else None
+    if h in ("field-size-by-reference:UInt:n", "field-size-by-reference:UInt", "field-size:UInt:n", "field-size:UInt"):
+        fs, n = v["field_size_bits"], v["explicit_bits"]
+        if fs % 8 or not 0 <= fs <= 4096 or (h.endswith(":n") and not 0 < n <= 4096):
+            return None
+        size = "k" if "by-reference" in h else str(fs // 8)
+        return hdr + "struct S:\n  let k = %d\n  0 [+%s]  UInt%s  x\n" % (fs // 8, size, (":%d" % n) if h.endswith(":n") else "")
     if h == "bits-size":
         k = v["fixed_size_in_bits"]
         if k <= 0 or k > 4096:
